@@ -628,21 +628,27 @@ func registerExternals() {
 		}
 		return r
 	}
+	ext["strconv.Itoa"] = func(fr *frame, args []value) value {
+		if s, ok := args[0].(sv); ok {
+			return symDecimal(fr, s)
+		}
+		return strconv.Itoa(args[0].(int))
+	}
 	ext["strconv.FormatInt"] = func(fr *frame, args []value) value {
 		if s, ok := args[0].(sv); ok {
-			return symDecimal(s)
+			return symDecimal(fr, s)
 		}
 		return strconv.FormatInt(args[0].(int64), args[1].(int))
 	}
 	ext["strconv.FormatUint"] = func(fr *frame, args []value) value {
 		if s, ok := args[0].(sv); ok {
-			return symDecimal(s)
+			return symDecimal(fr, s)
 		}
 		return strconv.FormatUint(args[0].(uint64), args[1].(int))
 	}
 	ext["strconv.FormatFloat"] = func(fr *frame, args []value) value {
 		if s, ok := args[0].(sv); ok {
-			return symDecimal(s)
+			return symDecimal(fr, s)
 		}
 		return strconv.FormatFloat(args[0].(float64), args[1].(byte), args[2].(int), args[3].(int))
 	}
@@ -733,7 +739,10 @@ func wideSum(st *Store, sl value) *Term {
 }
 
 // symDecimal renders a symbolic number inside a string as a marker (strings stay concrete).
-func symDecimal(s sv) value {
+func symDecimal(fr *frame, s sv) value {
+	if s.t.kind == KInt || s.t.kind == KWide {
+		return fr.i.p.symMarker(s.t)
+	}
 	return "<sym " + s.t.String() + ">"
 }
 
@@ -748,7 +757,7 @@ func fmtArgs(fr *frame, sl value) []interface{} {
 
 func obsString(fr *frame, itf iface) string {
 	x := fmtArg(fr, itf)
-	return fmt.Sprintf("%v", x)
+	return humanMarkers(fr.i.p, fmt.Sprintf("%v", x))
 }
 
 func callMethodLookup(fr *frame, itf iface, name string) (*ssa.Function, bool) {
